@@ -101,7 +101,8 @@ def doReturn (s : VM) (result : Value) (extra : List Value) : Step :=
   | fr :: rest =>
     if s.stack.size < s.bp then .fault "popframe-truncate" else
     let s1 : VM := { s with stack := s.stack.extract 0 s.bp, frames := rest, ip := fr.ip, bp := fr.bp }
-    let m := GC.run s1.mem (s1.roots extra)
+    -- `GC::run` returns at once when it manages nothing; the roots are only collected otherwise
+    let m := if s1.mem.managed.isEmpty then s1.mem else GC.run s1.mem (s1.roots extra)
     .next { s1 with mem := m, stack := s1.stack.push result }
 
 def pop1 (st : Array Value) : Option (Value × Array Value) :=
